@@ -6,6 +6,7 @@ CONSTANTS
   NegAttempts = 10
   MaxLoss = 5
   MaxNegLoss = 2
+  MaxRestarts = 0
   PeerModes <- ModesAll
   DenyReplies <- DenyOne
   AckTails <- TailsRssi
